@@ -1227,6 +1227,7 @@ func (s *Service) queryEventExpire(v interface{}) {
 	qe := v.(*queryEvent)
 	qe.sub.Drain()
 	close(qe.done)
+	verifNote("s.qexpire", qe.r.rname, 0)
 	s.runWith(qe.r.Group(), func() {
 		atomic.StoreInt32(&qe.expired, 1)
 		qe.cb(nil)
